@@ -143,6 +143,31 @@ int main(void)
 			printf("%d %d %zu %llu %zu %u %08x %zu\n", (int)r1, (int)r2, peakB, (unsigned long long)muB, max_excess, e2, c2, live_bytes); fflush(stdout);
 			continue;
 		}
+		if (!strncmp(line, "reenc ", 6)) {
+			// reenc <threads1> <threads2> <preset> <block_size> <hex>: threaded encoder used for a while (output left queued),
+			// re-initialised on the same handle with other thread count; what is live during the second use vs the estimate for it
+			unsigned t1, t2, pr; unsigned long long bsz; int o2 = 0;
+			if (sscanf(line, "reenc %u %u %u %llu %n", &t1, &t2, &pr, &bsz, &o2) < 4) { printf("ERR\n"); fflush(stdout); continue; }
+			size_t n = 0; for (char *h = line + o2; h[0] && h[1] && h[0] != '\n'; h += 2) in[n++] = (uint8_t)(hexv(h[0]) << 4 | hexv(h[1]));
+			nlive = 0; live_bytes = peak_bytes = n_allocs = bad_free = 0; fail_k = 0; alarm(60);
+			lzma_stream s = LZMA_STREAM_INIT; s.allocator = &al; static uint8_t ob[1 << 22]; uint8_t tiny[8];
+			lzma_mt m1 = { .threads = t1, .preset = pr, .check = LZMA_CHECK_CRC32, .block_size = bsz }, m2 = m1; m2.threads = t2;
+			lzma_ret r1 = lzma_stream_encoder_mt(&s, &m1);
+			if (r1 == LZMA_OK) {   // all input in, almost no output space: finished Blocks stay in the output queue
+				s.next_in = in; s.avail_in = n;
+				for (int c = 0; c < 40 && r1 == LZMA_OK; c++) { s.next_out = tiny; s.avail_out = c < 3 ? sizeof tiny : 0; r1 = lzma_code(&s, LZMA_RUN); if (s.avail_in == 0 && c > 6) break; }
+				if (r1 == LZMA_BUF_ERROR) r1 = LZMA_OK;
+				usleep(20000);
+			}
+			lzma_ret r2 = lzma_stream_encoder_mt(&s, &m2);
+			uint64_t est2 = lzma_stream_encoder_mt_memusage(&m2);
+			pthread_mutex_lock(&mu); size_t live_at_reinit = live_bytes; peak_bytes = live_bytes; pthread_mutex_unlock(&mu);
+			if (r2 == LZMA_OK) { s.next_in = in; s.avail_in = n; do { s.next_out = ob; s.avail_out = sizeof ob; r2 = lzma_code(&s, LZMA_FINISH); } while (r2 == LZMA_OK); }
+			size_t peak2 = peak_bytes;
+			lzma_end(&s); alarm(0);
+			printf("%d %d %llu %zu %zu %zu %zu\n", (int)r1, (int)r2, (unsigned long long)est2, live_at_reinit, peak2, live_bytes, bad_free); fflush(stdout);
+			continue;
+		}
 		// memc = mem with the input offered 7 bytes at a time (lzma_memusage() is sampled after every call that returns LZMA_OK)
 		in_chunk = 0; if (!strncmp(line, "memc ", 5)) { in_chunk = (line[5] == '6') ? 0 : 7; memmove(line + 3, line + 4, strlen(line + 4) + 1); }
 		if (sscanf(line, "mem %u %llu %llu %u %n", &sc, &failk, &memlimit, &arg, &off) < 4) { printf("ERR\n"); fflush(stdout); continue; }
